@@ -95,4 +95,6 @@ FIXED_BY_SUBJECT = {
    ('C19', 'len()/prettyPrint() of a reset SEQUENCE/SET raised; a reset CHOICE kept its alternative index')],
  "fix: slice assignment on SEQUENCE OF/SET OF follows list semantics": [
    ('C19', 'slice assignment with a replacement of different length overwrote following members; s[i:i]=... leaked IndexError')],
+ "fix: a constrained type did not recognise types derived from it": [
+   ('C14', 'parent.isSuperTypeOf(child) was False for any constrained parent; child values could not be assigned to parent-typed components')],
 }
